@@ -379,7 +379,7 @@ def execute(plan, ctx):
     W.coin = {"sig": cfg["sig"]}
     W.keys = []
     for k in cfg["keys"]:
-        W.keys.append({"d": k["d"], "compressed": k["compressed"], "P": C.mul(k["d"], C.G), "path": k.get("path")})
+        W.keys.append({"d": k["d"], "compressed": k["compressed"], "P": C.mul_g(k["d"]), "path": k.get("path")})
     W.extra = {}
     W.copies = {}
     W.scripts = []
